@@ -5,6 +5,7 @@ import re
 import signal
 import subprocess
 import sys
+import shutil
 import tempfile
 import time
 from concurrent.futures import ThreadPoolExecutor
@@ -120,6 +121,7 @@ def run_shard(exe, args, start, count, env=None, timeout=600, progress=True):
     Returns (lines, crashes) where crashes = [(case, signame, tail_of_stderr)]."""
     lines = []
     crashes = []
+    restarts = 0
     cur = start
     end = start + count
     e = dict(os.environ)
@@ -153,7 +155,13 @@ def run_shard(exe, args, start, count, env=None, timeout=600, progress=True):
                 last = cur
             if rc != 99:  # 99 = the harness printed the violation itself (e.g. per-case watchdog) and wants a restart
                 crashes.append((last, "timeout" if timed_out else _sig_name(rc), err[-6000:], " ".join(cmd)))
+            else:
+                restarts += 1
             cur = max(last, cur) + 1
+            if restarts >= 12 and cur < end:
+                # every restart already reported its violation; a tree on which most cases hang must not keep the check busy for hours
+                lines.extend(["DISCARD skipped-after-12-watchdog-restarts-in-one-shard"] * (end - cur))
+                break
     return lines, crashes
 
 
@@ -169,10 +177,18 @@ def run_sharded(res, exe, args, total, env=None, nshards=None, timeout=900, cras
         c = min(per, total - s)
         if c > 0:
             jobs.append((s, c))
-    with ThreadPoolExecutor(max_workers=len(jobs) or 1) as ex:
-        futs = [ex.submit(run_shard, exe, args, s, c, env, timeout) for s, c in jobs]
-        for f in futs:
-            lines, crashes = f.result()
+    # one scratch directory per run for everything the harness processes (and the tools they start) write: it is removed when the run ends,
+    # also when a harness process was killed by its watchdog and could not clean up after itself
+    run_tmp = tempfile.mkdtemp(prefix="vp-run-", dir=os.environ.get("TMPDIR", "/tmp"))
+    env = dict(env or {}, VP_TMP=run_tmp, TMPDIR=run_tmp)
+    try:
+        with ThreadPoolExecutor(max_workers=len(jobs) or 1) as ex:
+            futs = [ex.submit(run_shard, exe, args, s, c, env, timeout) for s, c in jobs]
+            results = [f.result() for f in futs]
+    finally:
+        shutil.rmtree(run_tmp, ignore_errors=True)
+    if True:
+        for lines, crashes in results:
             res.merge_lines(lines, cmd=" ".join([exe] + [str(a) for a in args]))
             for case, sig, err, cmd in crashes:
                 if sig == "timeout":
